@@ -11,3 +11,5 @@ import WrglModel.Props.C05
 #print axioms Wrgl.C05_tryResolve_cell_is_cellFold
 #print axioms Wrgl.C05_base_column_rule
 #print axioms Wrgl.C05_added_column_rule
+#print axioms Wrgl.C05_merge_base_spec
+#print axioms Wrgl.C05_merge_base_reaches_every_head
